@@ -37,7 +37,7 @@ def _v(rec, clause, sig, *a, **k):
 def units(tier, seed):
     shapes = [(2, 3), (3, 3), (3, 2), (3, 4)] + ([] if tier == "quick" else [(2, 4), (4, 4), (4, 5)])
     out = []
-    for names, A, (lb, ub), K, bl in AL.systems(shapes, seed=seed, order=1, bounds=["ub-finite", "lb-mixed"], Ks=["default", "vector"], baselines=["default", "vector"], seeded=(tier != "quick")):
+    for names, A, (lb, ub), K, bl in AL.systems(shapes, seed=seed, order=1, bounds=["ub-finite", "lb-mixed", "unbounded-lb"], Ks=["default", "vector"], baselines=["default", "vector"], seeded=(tier != "quick")):
         if names["A"] == "perm":
             continue
         out.append(dict(names=names, spec=B.spec_of(A, lb, ub, K, bl), tier=tier))
@@ -97,11 +97,13 @@ def run_unit(unit, rec):
     Abar, c0, lo, hi = B.model_of(spec)
     m, n = Abar.shape
     under = n > m
-    ext = float(np.max(np.abs(Abar) @ (hi - lo)))
+    bounded = bool(np.all(np.isfinite(hi)))
+    hi_f = np.where(np.isfinite(hi), hi, lo + 2.0)
+    ext = float(np.max(np.abs(Abar) @ (hi_f - lo)))
     # targets with a clear margin (inside / outside) so that membership is decided
-    X = AL.lattice(lo, hi, (0.3, 0.7))
+    X = AL.lattice(lo, hi_f, (0.3, 0.7))
     T = [c0 + Abar @ x for x in X[:: max(1, len(X) // 4)][:4]]
-    fp = O.zono_facet_points(Abar, c0, lo, hi)
+    fp = O.zono_facet_points(Abar, c0, lo, hi) if bounded else []
     for cen, nu in fp[:2]:
         T.append(cen + 0.1 * ext * nu)
         T.append(cen - 0.05 * ext * nu)
@@ -109,10 +111,14 @@ def run_unit(unit, rec):
         # near-boundary targets on both sides, at three times the stated margin (1e-6 x extent) of C03
         T.append(cen + 3e-6 * ext * nu)
         T.append(cen - 3e-6 * ext * nu)
-    if not fp:
+    if not fp and bounded:
         T.append(c0 + Abar @ hi * 1.5)
+    if not bounded:
+        apex = c0 + Abar @ lo
+        T.append(apex - 0.3 * np.abs(Abar).sum(1))  # behind the apex: outside the cone
+        T.append(apex + Abar @ (np.arange(n) + 0.5))
     T = np.array(T)
-    mg = O.zono_margin(T, Abar, c0, lo, hi)
+    mg = O.zono_margin(T, Abar, c0, lo, hi) if bounded else O.cone_margin(T, Abar, c0 + Abar @ lo)
     rec.trans(2)
     base_est = make_twin(spec, 1.0, 1.0)
     rec.state(B.state_key(base_est))
@@ -121,7 +127,7 @@ def run_unit(unit, rec):
     smin = np.linalg.svd(Abar, compute_uv=False)[min(m, n) - 1]
     unique = n <= m
     for s, c in itertools.product(GRID, GRID):
-        in_regime = bool(np.all(hi / s <= 10) and np.all((hi - lo) / s >= 0.05) and 1.0 <= ext * c <= 100.0 and np.max(np.abs(T)) * c <= 100.0 and 1.0 <= ext <= 100.0)
+        in_regime = bool(np.all(hi_f / s <= 10) and np.all(lo[lo > 0] / s >= 0.05) and np.all((hi_f - lo) / s >= 0.05) and 1.0 <= ext * c <= 100.0 and np.max(np.abs(T)) * c <= 100.0 and 1.0 <= ext <= 100.0)
         reg = "asserted" if in_regime else "stress"
         rec.path()
         rec.trans(5)
@@ -156,10 +162,10 @@ def run_unit(unit, rec):
                 dev = float(np.mean(b0[idx] != g[idx])) if len(idx) else 0.0
             elif q == "range":
                 d = max(np.max(np.abs(g[0] * s - b0[0])), np.max(np.abs(g[1] * s - b0[1])))
-                dev = float(d / np.max(hi - lo))
-                inside = np.flatnonzero(mg >= 1e-3 * ext)
+                dev = float(d / np.max(hi_f - lo))
+                inside = np.flatnonzero(mg >= 1e-3 * ext) if mg is not None else np.arange(0)
                 dI = max(np.max(np.abs(g[0][inside] * s - b0[0][inside]), initial=0.0), np.max(np.abs(g[1][inside] * s - b0[1][inside]), initial=0.0))
-                if dI > 1e-7 * np.max(hi - lo):
+                if dI > 1e-7 * np.max(hi_f - lo):
                     bad = ("b", "solution ranges of the twin are not the base ranges divided by s (s=%g, c=%g, max dev %.3g)" % (s, c, dI))
             else:
                 Xb, Pb = b0
@@ -169,7 +175,7 @@ def run_unit(unit, rec):
                 dev = dP / ext
                 if dP > tolP:
                     bad = ("d", "predicted captures of the twin are not the base predictions times c (s=%g, c=%g, max dev %.4g)" % (s, c, dP))
-                elif unique and np.max(np.abs(Xt * s - Xb)) > 3 * tolP / smin + 0.02 * np.max(hi - lo):
+                elif unique and np.max(np.abs(Xt * s - Xb)) > 3 * tolP / smin + 0.02 * np.max(hi_f - lo):
                     bad = ("c", "uniquely determined intensities of the twin are not the base intensities divided by s (s=%g, c=%g)" % (s, c))
                 else:
                     eb = np.linalg.norm(Pb - T, axis=1)
